@@ -171,16 +171,16 @@ func TestC19SwapServiceRaces(t *testing.T) {
 					_ = cb(s.ids[0], "", fmt.Errorf("exceeded csv limit"))
 				}
 			},
-			"csv-alice":      func() { _ = csvA["lbtc"](s.ids[1]) },
-			"cancel-to-a-0":  func() { _ = handlerA(s.b.Id, "a45f", cancelFor(s.ids[0])) },
-			"cancel-to-a-1":  func() { _ = handlerA(s.b.Id, "a45f", cancelFor(s.ids[1])) },
-			"coop-to-a-1":    func() { _ = handlerA(s.b.Id, "a461", coopFor(s.ids[1])) },
-			"cancel-to-b-0":  func() { _ = handlerB(s.a.Id, "a45f", cancelFor(s.ids[0])) },
-			"paid-alice":     func() { payA(s.ids[1], swap.INVOICE_CLAIM) },
-			"list":           func() { _, _ = s.a.Svc.ListSwaps(); _, _ = s.a.Svc.ListActiveSwaps() },
-			"get":            func() { _, _ = s.a.Svc.GetSwap(s.ids[0]); _, _ = s.a.Svc.GetActiveSwap(s.ids[1]) },
-			"has-active":     func() { _, _ = s.a.Svc.HasActiveSwaps() },
-			"resend":         func() { _ = s.a.Svc.ResendLastMessage(s.ids[1]) },
+			"csv-alice":     func() { _ = csvA["lbtc"](s.ids[1]) },
+			"cancel-to-a-0": func() { _ = handlerA(s.b.Id, "a45f", cancelFor(s.ids[0])) },
+			"cancel-to-a-1": func() { _ = handlerA(s.b.Id, "a45f", cancelFor(s.ids[1])) },
+			"coop-to-a-1":   func() { _ = handlerA(s.b.Id, "a461", coopFor(s.ids[1])) },
+			"cancel-to-b-0": func() { _ = handlerB(s.a.Id, "a45f", cancelFor(s.ids[0])) },
+			"paid-alice":    func() { payA(s.ids[1], swap.INVOICE_CLAIM) },
+			"list":          func() { _, _ = s.a.Svc.ListSwaps(); _, _ = s.a.Svc.ListActiveSwaps() },
+			"get":           func() { _, _ = s.a.Svc.GetSwap(s.ids[0]); _, _ = s.a.Svc.GetActiveSwap(s.ids[1]) },
+			"has-active":    func() { _, _ = s.a.Svc.HasActiveSwaps() },
+			"resend":        func() { _ = s.a.Svc.ResendLastMessage(s.ids[1]) },
 			"timeouts-alice": func() {
 				for _, to := range s.a.Timeouts.Snapshot() {
 					to.Fire()
@@ -302,9 +302,9 @@ type raceRPC struct {
 func (r *raceRPC) GetBlockHeight() (uint64, error) {
 	return 100 + uint64(time.Since(r.t0)/(300*time.Millisecond)), nil
 }
-func (r *raceRPC) bump() {}
+func (r *raceRPC) bump()                                                 {}
 func (r *raceRPC) GetTxOut(string, uint32) (*txwatcher.TxOutResp, error) { return nil, nil }
-func (r *raceRPC) GetBlockHash(h uint32) (string, error)               { return fmt.Sprintf("h%d", h), nil }
+func (r *raceRPC) GetBlockHash(h uint32) (string, error)                 { return fmt.Sprintf("h%d", h), nil }
 func (r *raceRPC) GetRawtransactionWithBlockHash(string, string) (string, error) {
 	return "", fmt.Errorf("not found")
 }
@@ -436,14 +436,21 @@ func TestC19PeerSyncRaces(t *testing.T) {
 		peerA, _ := peersync.NewPeerID("02" + strings.Repeat("aa", 32))
 		payload := []byte(`{"version":7,"assets":["BTC","LBTC"],"peer_allowed":true}`)
 		palette := map[string]func(){
-			"poll-msg":     func() { ps.VerifProcessMessage(ctx, peersync.CustomMessage{From: peerA, Type: messages.MESSAGETYPE_POLL, Payload: payload}) },
-			"request-msg":  func() { ps.VerifProcessMessage(ctx, peersync.CustomMessage{From: peerA, Type: messages.MESSAGETYPE_REQUEST_POLL, Payload: payload}) },
+			"poll-msg": func() {
+				ps.VerifProcessMessage(ctx, peersync.CustomMessage{From: peerA, Type: messages.MESSAGETYPE_POLL, Payload: payload})
+			},
+			"request-msg": func() {
+				ps.VerifProcessMessage(ctx, peersync.CustomMessage{From: peerA, Type: messages.MESSAGETYPE_REQUEST_POLL, Payload: payload})
+			},
 			"poll-all":     func() { ps.PollAllPeers(ctx) },
 			"force-poll":   func() { ps.ForcePollAllPeers(ctx) },
 			"cleanup":      func() { _ = ps.VerifCleanupExpired(ctx) },
 			"compatible?":  func() { _ = ps.HasCompatiblePeer(peerA.String()); _, _ = ps.CompatiblePeers() },
 			"request-poll": func() { _ = ps.RequestPoll(ctx, peerA) },
-			"policy-flip":  func() { _ = pol.AddToSuspiciousPeerList(peerA.String()); _ = pol.RemoveFromSuspiciousPeerList(peerA.String()) },
+			"policy-flip": func() {
+				_ = pol.AddToSuspiciousPeerList(peerA.String())
+				_ = pol.RemoveFromSuspiciousPeerList(peerA.String())
+			},
 		}
 		names := make([]string, 0, len(palette))
 		for k := range palette {
